@@ -519,6 +519,33 @@ fn sequences(run: &mut Run) -> PResult {
 
 fn run_profile(run: &mut Run) -> PResult {
     let thorough = run.tier == Tier::Thorough;
+    {
+        let t = poker::tables();
+        let mut items: Vec<Vec<u32>> = Vec::new();
+        for v in [1u16, 10, 11, 166, 167, 1599, 1600, 1609, 2467, 3325, 6185, 7462] {
+            let five: Vec<u32> = t.rep[v as usize].iter().map(|c| card::BY_CI[*c as usize]).collect();
+            let extras: Vec<u32> = card::BY_CI.iter().copied().filter(|w| !five.contains(w)).take(2).collect();
+            for n in 5..=7usize {
+                let base: Vec<u32> = five.iter().copied().chain(extras.iter().copied()).take(n).collect();
+                items.push(base.clone());
+                for s in 0..n {
+                    let mut w = base.clone();
+                    w[s] = 0;
+                    items.push(w.clone());
+                    w[(s + 1) % n] = w[(s + 2) % n];
+                    items.push(w);
+                }
+            }
+        }
+        items.push(vec![0; 5]);
+        items.push(vec![0; 6]);
+        items.push(vec![0; 7]);
+        disturbance_pass(run, &items, &|ws| examine(ws).map_err(|(c, m)| format!("{}: {}", c, m)), &|ws| {
+            let mut c = hand_json(ws);
+            c.as_object_mut().unwrap().insert("profile".into(), json!(profile()));
+            ("C05.no_panic".into(), c, card::render_hand(ws))
+        })?;
+    }
     sequences(run)?;
     multisets::<5, F5>(run, 1)?;
     multisets::<6, F6>(run, 1)?;
@@ -550,6 +577,9 @@ fn thorough_all(t: Tier) -> bool {
 }
 
 pub fn check_case(clause: &str, case: &Value) -> Result<(), String> {
+    if clause.ends_with(".after_disturbance") {
+        return replay_after_disturbance(case, check_case);
+    }
     match clause {
         "C05.key_no_panic" => key_examine(case["key"].as_u64().ok_or("key missing")?),
         "C05.sequence" => {
